@@ -125,6 +125,32 @@ def guards(ck, P):
                       "deflate_stored copies from the window to next_out without the min(left, len)/min(len, have) bound chain "
                       "(count %s; len bounded by have: %s; have from avail_out: %s)" % (mir.fmt(cnt, ds)[:100], len_ok, have_ok), where(ds, cs[0].line))
             ck.call_sites += 1
+        # stored block header size: 3 header bits, padding to a byte boundary, LEN and NLEN =
+        # ceil((bits_valid + 3) / 8) + 4 bytes = (bits_valid + 42) / 8; every place that reserves room for it must agree
+        hdr = []
+        for bi, si, lhs, rv, s in ds.assignments():
+            e = mir.strip_casts(ds.rvalue_expr(rv))
+            if e[0] == "bin" and e[1] in ("Div", "Shr") and mir.mentions_field(e[2], "bits_valid"):
+                hdr.append((e, s.get("line")))
+            elif e[0] == "bin" and mir.mentions_field(e, "bits_valid") and e[1] in ("Add", "AddWithOverflow") and not any(
+                    x[0] == "bin" and x[1] in ("Div", "Shr") and atoms.cval(x[3]) in (8, 3) and atoms.cval(mir.strip_casts(x[2])[3] if mir.strip_casts(x[2])[0] == "bin" else ("c", None)) == 42
+                    for x in mir.walk(e) if x[0] == "bin" and x[1] in ("Div", "Shr")):
+                # some other arithmetic on bits_valid that yields a byte count (e.g. bits_valid / 8 + 5)
+                if any(x[0] == "bin" and x[1] in ("Div", "Shr") for x in mir.walk(e)):
+                    hdr.append((e, s.get("line")))
+        okh = []
+        for e, ln in hdr:
+            inner = mir.strip_casts(e[2]) if e[1] in ("Div", "Shr") else None
+            good = (inner is not None and inner[0] == "bin" and inner[1] in ("Add", "AddWithOverflow") and mir.mentions_field(inner[2], "bits_valid")
+                    and atoms.cval(inner[3]) == 42 and ((e[1] == "Div" and atoms.cval(e[3]) == 8) or (e[1] == "Shr" and atoms.cval(e[3]) == 3)))
+            okh.append(good)
+            if not good:
+                ck.bad("ATOM/stored-header-bytes", "deflate_stored:header-size-expr", "deflate_stored reserves `%s` bytes for the stored-block header; the header takes "
+                       "(bits_valid + 42) / 8 bytes (3 header bits, padding to a byte, LEN, NLEN): with 6 or 7 pending bits the copy that follows overruns "
+                       "next_out by the difference" % mir.fmt(e, ds)[:90], where(ds, ln))
+        ck.floor("ATOM/stored-header-bytes", len(hdr), 2)
+        if hdr and all(okh):
+            ck.ok("ATOM/stored-header-bytes", "deflate_stored", "%d sites reserve (bits_valid + 42) / 8 header bytes" % len(hdr))
         # header room test
         ok = False
         for a, b, tb in atoms.all_atoms(ds):
